@@ -100,6 +100,8 @@ class Decls:
             'Result': [('Ok', ['0']), ('Err', ['0'])],
             'ControlFlow': [('Continue', ['0']), ('Break', ['0'])],
             'Ordering': [('Less', []), ('Equal', []), ('Greater', [])],
+            'Unexpected': [('Bool', ['0']), ('Unsigned', ['0']), ('Signed', ['0']), ('Float', ['0']), ('Char', ['0']), ('Str', ['0']), ('Bytes', ['0']), ('Unit', []), ('Option', []), ('NewtypeStruct', []),
+                           ('Seq', []), ('Map', []), ('Enum', []), ('UnitVariant', []), ('NewtypeVariant', []), ('TupleVariant', []), ('StructVariant', []), ('Other', ['0'])],
         })
         s.discr = {'Ordering': {'Less': -1, 'Equal': 0, 'Greater': 1}}
     def _scan(s, txt):
@@ -179,6 +181,7 @@ class Program:
         s._parse(mirtext)
     def _parse(s, text):
         lines = text.split('\n')
+        s._last_const = None
         i, n = 0, len(lines)
         while i < n:
             ln = lines[i]
@@ -223,6 +226,9 @@ class Program:
         for bm in re.finditer(r'^    (bb\d+)(?: \(cleanup\))?: \{\n(.*?)^    \}', body, re.S | re.M):
             blocks[bm.group(1)] = [parse_stmt(l.strip()) for l in bm.group(2).split('\n') if l.strip()]
         fn = Fn(name, ps, ret, locals_, blocks)
+        if kind == 'fn' and name == '__rust_std_internal_init_fn' and s._last_const:
+            fn.name = name = f'__rust_std_internal_init_fn@{s._last_const}'
+        if kind != 'fn' and 'LocalKey<' in ret: s._last_const = name.split('::')[-1]
         if kind == 'fn':
             if name in s.fns:
                 if '<impl at' in name and fn.ret != s.fns[name].ret:
@@ -722,6 +728,7 @@ class PathExec:
         m = re.match(r'^(-?[\d.]+(?:[eE][-+]?\d+)?)f64$', c)
         if m: return F64(float(m.group(1)))
         if strip_generics(c) == 'lazy_static::lazy::Lazy::INIT': return Agg('struct', 'LazyUninit', None, [])
+        if '::{constant#' in c: return Opaque(('const-item', c))
         am = re.match(r'^\{(alloc\d+): (.+)\}$', c)
         if am: return s.static_ref(am.group(1))
         if c.startswith('ZeroSized: '): return s.zst(c[11:])
